@@ -67,13 +67,18 @@ def step (s : Sess) (c : Cmd) : Sess × String × String :=
   -- construction shared by `new` and `mk_new`
   let build (isNew : Bool) (m : Mem) : Stat × Option Stack × Mem × Stat :=
     let (cap, f) := confOf c isNew
+    -- a request above 2^40 bytes is refused by the harness allocator (counted as `absurd=`): 3rd call
+    let absurd := cap * 8 > 2 ^ 40 ∧ c.sched.isEmpty
+    let m := if absurd then { m with sched := [false, false, true] } else m
     let (st, r, m) := Stack.new cap (growF f) (exGeF f) m
-    let sst : Stat := if refused then .errAlloc else if cap = 0 ∨ exGeF f (Gen.CC_MAX_ELEMENTS / cap) then .errInvalidCapacity else .ok
+    let m := if absurd then { m with nrefused := 0 } else m
+    let invalid := cap = 0 ∨ exGeF f (Gen.CC_MAX_ELEMENTS / cap) ∨ cap > Gen.CC_MAX_ELEMENTS / 8
+    let sst : Stat := if refused then .errAlloc else if invalid then .errInvalidCapacity else .ok
     (st, r, m, sst)
   match c.op with
   | "new" | "new_default" =>
     let (cap, f) := confOf c (c.op == "new")
-    if cap > 2 ^ 24 ∨ f > 1024 then ({ blind := true }, "S ?", "M ?") else
+    if f > 1024 ∨ (2 ^ 24 < cap ∧ cap * 8 ≤ 2 ^ 40) then ({ blind := true }, "S ?", "M ?") else
     let (st, r, m, sst) := build (c.op == "new") m
     let s' : Sess := { slots := [r, none, none, none], sslots := [if sst = .ok then some [] else none, none, none, none], mem := m }
     fin s' (fmtStat sst) (fmtStat st)
